@@ -356,6 +356,7 @@ func (hs *clientHandshakeStateGM) doFullHandshake() error {
 		return err
 	}
 	if ckx != nil {
+		ckx.ciphertext = verifFaultBytes(c, "cke", ckx.ciphertext)
 		hs.finishedHash.Write(ckx.marshal())
 		if _, err := c.writeRecord(recordTypeHandshake, ckx.marshal()); err != nil {
 			return err
